@@ -132,9 +132,10 @@ def p2pLibAdmitOld (o : Oracle) (trusted : Option SignedHeader) (bs : Bytes) : L
   p2pLibAdmitWith libValidateOld o trusted bs
 
 /-- the FIRST header of the P2P header store of a node without a trusted hash (`SyncService.setFirstAndStart`):
-whatever a peer answers for the initial height goes through the exchange session's `Validate()` and then
-`initStoreAndStartSyncer`, which since /repo 5bb4988 requires the genesis proposer address. Everything received
-later is only verified against the header before it (`p2pLibAdmit`). -/
+whatever a peer answers to the single request `Exchange.GetByHeight(initial height)` — which go-header only
+DECODES, it does not call `Validate()` on it — goes to `initStoreAndStartSyncer`, which since /repo 3ea3561 calls
+`Validate()` itself and since /repo 5bb4988 requires the genesis proposer address, before `store.Init`.
+Everything received later is only verified against the header before it (`p2pLibAdmit`). -/
 def p2pBootAdmit (o : Oracle) (proposer : Bytes) (bs : Bytes) : LibVerdict :=
   match headerStage o bs with
   | .ok sh =>
@@ -143,11 +144,29 @@ def p2pBootAdmit (o : Oracle) (proposer : Bytes) (bs : Bytes) : LibVerdict :=
     else .accepted
   | _ => .rejDecode
 
-/-- the same before /repo 5bb4988: the initial header was never compared with genesis -/
+/-- the same before /repo 5bb4988: any header that decodes became the head -/
 def p2pBootAdmitOld (o : Oracle) (bs : Bytes) : LibVerdict :=
   match headerStage o bs with
-  | .ok sh => if !libValidate o sh then .rejValidate else .accepted
+  | .ok _ => .accepted
   | _ => .rejDecode
+
+/-- between /repo 5bb4988 and 3ea3561: the genesis proposer ADDRESS was compared, nothing was validated -/
+def p2pBootAdmitMid (o : Oracle) (proposer : Bytes) (bs : Bytes) : LibVerdict :=
+  match headerStage o bs with
+  | .ok sh => if sh.header.proposerAddress ≠ proposer then .rejGenesis else .accepted
+  | _ => .rejDecode
+
+/-- the first item of the P2P DATA store goes through the same init path: `Data.Validate()` (metadata present) -/
+def p2pBootDataAdmit (bs : Bytes) : LibVerdict :=
+  match Data.decode bs with
+  | none => .rejDecode
+  | some d => if !(d.metadata.isSome) then .rejValidate else .accepted
+
+/-- before /repo 3ea3561 (and 8e620ca): no validation; `store.Init` reads `Height()` of an item without metadata -/
+def p2pBootDataAdmitOld (bs : Bytes) : LibVerdict :=
+  match Data.decode bs with
+  | none => .rejDecode
+  | some d => if d.metadata.isNone then .panics else .accepted
 
 /-! ### P2P data items (`types.Data` as go-header's header type of the data sync service) -/
 
